@@ -77,3 +77,22 @@ def symHypB (N : Net n) (p : Space n) (motifs : List (Space n)) (cands : List (S
     !(A.all (fun s => p.memB s && !inK p motifs s)) || cands.any fun c => A.contains c
 
 end Balm.Impl
+
+namespace Balm.Impl
+
+open Balm
+
+variable {n : Nat}
+
+/-- `symbolic_attractor_fallback` on an ordinary node, by the specifications of its parts: the states of the node's
+    space outside the successor spaces, minus everything that can reach a successor space (`reach_bwd` of the union of
+    the successor spaces); the attractors inside what is left (`xie_beerel`; `transition_guided_reduction` only removes
+    states that lie in no attractor of the set).  For a stub there are no successor spaces. -/
+def fallbackRegion (N : Net n) (p : Space n) (succSpaces : List (Space n)) : List (State n) :=
+  (statesOf p).filter fun s =>
+    !(succSpaces.any fun q => q.memB s) && !((reachSet N s).any fun t => succSpaces.any fun q => q.memB t)
+
+def fallbackAttrs (N : Net n) (p : Space n) (succSpaces : List (Space n)) : List (List (State n)) :=
+  (attractors N).filter fun A => A.all fun s => (fallbackRegion N p succSpaces).contains s
+
+end Balm.Impl
